@@ -1603,6 +1603,7 @@ end EquivC11
 -- NO-HYPOTHESES: PysparklingVerif.C12.remainder_spec
 -- NO-HYPOTHESES: PysparklingVerif.Extracted.C12.modInt_eq
 -- NO-HYPOTHESES: PysparklingVerif.Extracted.C12.modInt_is_arithM
+-- NO-HYPOTHESES: PysparklingVerif.Extracted.C12.divRat_is_ratArith
 -- NO-HYPOTHESES: PysparklingVerif.C12.drop_every_column_of_that_name
 -- NO-HYPOTHESES: PysparklingVerif.C13.crossJoin_eq
 -- NO-HYPOTHESES: PysparklingVerif.C14.rollup_keys
